@@ -135,7 +135,7 @@ theorem genModel_ok {c : Content} (hok : OkV c) {L : Lang} (hL : L ≠ .jl) {cac
         unpack := (templateOf L).unpack L
         inputs := omKeys c.vars
         extra := []
-        assigns := (cache.basePars.map fun kv => (kv.1, Rhs.const kv.2))
+        assigns := ((emittedPars c cache).map fun kv => (kv.1, Rhs.const kv.2))
           ++ ((defsOf c cache.order).map fun kf => (kf.1, Rhs.app kf.2))
           ++ ((diffEqs c.rxns).map fun vs => (dName vs.1, Rhs.lin vs.2))
         ret := ((omKeys c.vars).filter fun v => (omKeys (diffEqs c.rxns)).contains v).map dName
@@ -144,7 +144,7 @@ theorem genModel_ok {c : Content} (hok : OkV c) {L : Lang} (hL : L ≠ .jl) {cac
         retLen := if (templateOf L).sizedRet then some (omKeys c.vars).length else none } := by
   unfold genModel
   simp only [hcc, bind, Except.bind, popAll, emitBody_nil hok, pure, Except.pure, hinit, List.map_map,
-    Function.comp_def, target_id hL]
+    Function.comp_def, target_id hL, List.isEmpty_nil, Bool.not_true, Bool.false_and, Bool.false_eq_true, if_false]
 
 theorem zipBind_ok {names : List Name} {xs : List Rat} (h : names.length = xs.length) (env : Env) :
     zipBind names xs env = .ok ((names.zip xs).reverse ++ env) := by
@@ -221,8 +221,9 @@ theorem equiv_tail (c : Content) (L : Lang) (t : Rat) (xs : List Rat)
     (hcache : cache = Cache.mk order (omKeys c.vars) dy (plainOf c.pars)
                 (omUnion (plainOf c.pars) extra) stoich dst init)
     (hdy_kind : ∀ k ∈ dy, k ∈ omKeys c.derived ∨ k ∈ omKeys c.rxns)
+    {P : List (Name × Rat)} (hP : emittedPars c cache = P)
     {erun edyn : Env}
-    (herun : evalSeq (defsOf c order) (envR (plainOf c.pars) (omKeys c.vars) xs t) = .ok erun)
+    (herun : evalSeq (defsOf c order) (envR P (omKeys c.vars) xs t) = .ok erun)
     (hedyn : evalSeq (defsOf c dy) (("time", t) :: (([] : Env).reverse ++ ((omKeys c.vars).zip xs).reverse
               ++ (omUnion (plainOf c.pars) extra).reverse)) = .ok edyn)
     (hfull : ∀ a, erun.lookup a = edyn.lookup a) :
@@ -296,14 +297,14 @@ theorem equiv_tail (c : Content) (L : Lang) (t : Rat) (xs : List Rat)
                 (if out.length != (omKeys c.vars).length then .error (.other "ReturnTypeMismatch") else .ok out)
               else .ok out) := by
       unfold genRun
-      rw [genModel_ok hok hL hcc hcache_init]
+      rw [genModel_ok hok hL hcc hcache_init, hP]
       simp only [bind, Except.bind, runSLP, SLP.static, hunp, hretb, hvne, htab_ne, hfilter, bindInputs,
         zipBind_ok hlen, Env.setMany, List.zip_nil_right, List.length_nil, bne_self_eq_false,
         Bool.false_eq_true, if_false, pure, Except.pure, Bool.not_false, Bool.true_and, Bool.and_false,
         Bool.false_and, Bool.and_true, Bool.not_true]
       rw [runAssigns_append, runAssigns_append, hcache]
       simp only [runAssigns_consts, Except.bind, runAssigns_apps]
-      have herun' : evalSeq (defsOf c order) ((plainOf c.pars).reverse ++ (((omKeys c.vars).zip xs).reverse ++ [("time", t)])) = .ok erun := herun
+      have herun' : evalSeq (defsOf c order) (P.reverse ++ (((omKeys c.vars).zip xs).reverse ++ [("time", t)])) = .ok erun := herun
       rw [herun']
       simp only
       have hC : (diffEqs c.rxns).map (fun vs => (dName vs.1, Rhs.lin vs.2))
